@@ -210,7 +210,7 @@ def r16_2b(ctx: Ctx, rule="R16.2"):
         cl = direct[0].func.value.id
         name_var = None
         for s_ in walk_no_nested(lp):
-            if isinstance(s_, ast.Assign) and isinstance(s_.targets[0], ast.Name) and "findall" in norm(s_.value):
+            if isinstance(s_, ast.Assign) and isinstance(s_.targets[0], ast.Name) and ("findall" in norm(s_.value) or ".group(" in norm(s_.value)):
                 name_var = s_.targets[0].id
         inits = [s_ for s_ in stmts_sorted(init.node) if isinstance(s_, ast.Assign) and any(norm(t_) == cl for t_ in s_.targets) and s_.lineno < lp.lineno]
         ctx.ob(rule, init, inits[-1] if inits else "initial container", bool(inits) and (
@@ -225,6 +225,9 @@ def r16_2b(ctx: Ctx, rule="R16.2"):
                     tt, neg = tt.operand, not neg
                 if isinstance(tt, ast.Call) and "match" in norm(tt.func) and "\\[" in norm(tt):
                     hdr = (o != neg)
+                if isinstance(tt, ast.Compare) and len(tt.ops) == 1 and isinstance(tt.ops[0], (ast.Is, ast.IsNot)) and isinstance(tt.left, ast.Call) \
+                        and "match" in norm(tt.left.func) and "\\[" in norm(tt.left) and isinstance(tt.comparators[0], ast.Constant) and tt.comparators[0].value is None:
+                    hdr = (o != neg) != isinstance(tt.ops[0], ast.Is)
             st = p.stmts()
             apps = [x for x in st if norm(x) == "%s.append(%s)" % (cl, lv)]
             rebinds = [x for x in st if isinstance(x, ast.Assign) and norm(x.targets[0]) == cl]
@@ -253,6 +256,9 @@ def r16_2b(ctx: Ctx, rule="R16.2"):
                 tt, neg = tt.operand, not neg
             if isinstance(tt, ast.Call) and "match" in norm(tt.func) and "\\[" in norm(tt):
                 is_header = (o != neg)
+            if isinstance(tt, ast.Compare) and len(tt.ops) == 1 and isinstance(tt.ops[0], (ast.Is, ast.IsNot)) and isinstance(tt.left, ast.Call) \
+                    and "match" in norm(tt.left.func) and "\\[" in norm(tt.left) and isinstance(tt.comparators[0], ast.Constant) and tt.comparators[0].value is None:
+                is_header = (o != neg) != isinstance(tt.ops[0], ast.Is)
             if cur and norm(tt).replace(" ", "") == "%sisNone" % cur:
                 sec_none = (o != neg)
             if cur and norm(tt).replace(" ", "") == "%sisnotNone" % cur:
